@@ -122,7 +122,7 @@ class Fn:
             return
         self._pruned = True
         self._vt = None
-        if getattr(self, "inlined", False):
+        if getattr(self, "inlined", False) or not os.environ.get("VERIF_VT_INLINED_ONLY"):
             self._vt_setup()
             return
         consts = {}
@@ -984,6 +984,7 @@ class Facts:
         def base(p):
             return re.sub(r"#\d+$", "", p)
         new_from = self._hoist_into_conversions(known)
+        keep_body = set()
         for p, f in list(self.fns.items()):
             if f.crate in known:
                 g = desugar_bool_then(self, f)
@@ -1001,8 +1002,10 @@ class Facts:
                 known_traits = {k.split(" as ", 1)[1].rsplit(">::", 1)[0] for k in known[f.crate] if k.startswith("<") and " as " in k}
                 if (tr_crate != f.crate or tr in known_traits) and p not in new_from:
                     continue
-            if f.j.get("exported") or (f.j.get("pub") and f.j.get("reachable")):
+            if f.j.get("exported"):
                 continue                      # new public API: a root of its own
+            if f.j.get("pub") and f.j.get("reachable"):
+                keep_body.add(p)              # `pub fn` of a private module / unnameable type: a helper for its callers, and still a body of its own
             if any(b["term"]["k"] == "yield" for b in f.blocks):
                 continue
             cand[p] = f
@@ -1045,7 +1048,7 @@ class Facts:
                 if any(blk["term"]["k"] == "call" and blk["term"]["callee"] in inl for blk in f.blocks):
                     self.fns[p] = inline_calls(self, f, should, depth=5)
             for p in inl:
-                if p not in fnrefs:
+                if p not in fnrefs and p not in keep_body:
                     self.absorbed[p] = self.fns.pop(p)
         # helpers passed by name become closures of the function that names them
         n = 0
@@ -1326,7 +1329,7 @@ TRANSPARENT = [
     (r"vec_deque::VecDeque::<T, A>::(pop_front|pop_back|front|back|iter|drain)$", [0]),
     (r"linked_list::LinkedList::<T, A>::(pop_front|pop_back|front|back|iter)$", [0]),
     (r"iter::(traits::)?(collect::)?IntoIterator>?::into_iter$", [0]),
-    (r"Iterator>?::(next|collect|cloned|copied|rev|enumerate|peekable|filter|find|skip_while|take_while|last|nth)$", [0]),
+    (r"Iterator>?::(next|collect|cloned|copied|rev|enumerate|peekable|filter|find|skip_while|take_while|last|nth|skip|take|by_ref)$", [0]),
     (r"Iterator>?::(chain|zip)$", [0, 1]),
     (r"ops::try_trait::Try>?::branch$", [0]),
     (r"ops::try_trait::FromResidual(<.*>)?>?::from_residual$", [0]),
@@ -1376,6 +1379,10 @@ def combinator(callee):
         if rx.search(callee):
             return d, c, a
     return None
+
+
+_GROWABLE = re.compile(r"alloc::(vec::Vec|collections::vec_deque::VecDeque)<")
+_GROW_RX = r"(vec::Vec::<T, A>|vec_deque::VecDeque::<T, A>)::(push|push_back|push_front|insert|extend\w*|append)$|iter::traits::collect::Extend(<.*>)?>?::extend$"
 
 
 class Prov:
@@ -1455,6 +1462,19 @@ class Prov:
                 sub = path
             rv = s["rv"]
             out |= self._of_rvalue(fn, b, rv, sub, depth, _seen)
+        # a vector filled element by element (`let mut v = Vec::with_capacity(n); for .. { v.push(x) }`) holds what was pushed
+        if not path and local > fn.arg_count and local < len(fn.locals) and _GROWABLE.match(fn.locals[local]) and self._built_empty(fn, local):
+            for cb in fn.calls_re(_GROW_RX, cleanup=False):
+                t = fn.term(cb)
+                if len(t["args"]) < 2 or t["args"][0]["k"] not in ("copy", "move") or t["args"][0]["p"]:
+                    continue
+                sd = fn.single_def(t["args"][0]["l"])
+                if not sd or sd[1] == "term" or sd[2]["k"] != "assign" or sd[2]["rv"]["k"] != "ref" or sd[2]["rv"]["place"]["l"] != local \
+                        or sd[2]["rv"]["place"]["p"]:
+                    continue
+                val = t["args"][2] if t["callee"].endswith("::insert") and len(t["args"]) > 2 else t["args"][1]
+                for o in self._rec(fn, val, (), depth, _seen):
+                    out.add(Origin(o.kind, o.key, o.path, o.via + (("call", t["callee"], cb),)))
         # `a && b` lowers to: switch(a) [false: L = false; true: L = b].  L true implies a true, so the
         # origins of `a` are origins of L with the same polarity (needed to see through helper predicates).
         if local < len(fn.locals) and fn.locals[local] == "bool" and not path:
@@ -1463,6 +1483,11 @@ class Prov:
             out.add(Origin("unknown", "_%d" % local, path))
         self._memo[key] = out
         return out
+
+    def _built_empty(self, fn, local):
+        """The local starts as an empty container of its own (Vec::new / with_capacity / default): it is not a view of a parameter."""
+        ds = fn.defs(local)
+        return bool(ds) and all(d[1] == "term" and re.search(r"::(new|with_capacity|default)$", d[2]["callee"]) for d in ds)
 
     def _and_operands(self, fn, local, depth, _seen):
         defs = [d for d in fn.defs(local) if d[1] != "term" and d[2]["k"] == "assign" and not d[2]["lhs"]["p"]]
